@@ -410,3 +410,56 @@ VARIANTS["C09"] += [
     ("r4-changed-gt-descending", VCF, 'call["GT"] = tuple(sorted(genotypes[pos].as_vector()))', 'call["GT"] = tuple(genotypes[pos].as_vector())', "C09.R3"),
     ("b-r4-changed-gt-sorted-list", VCF, 'call["GT"] = tuple(sorted(genotypes[pos].as_vector()))', 'call["GT"] = sorted(genotypes[pos].as_vector())', "silent"),
 ]
+
+# ------------------------------------------------------------------------------------------ round-4 rules: controls in both directions
+PQX = "whatshap/priorityqueue.pyx"
+VARIANTS["C03"] += [
+    ("master-block-one-branch-input-genotypes", PH, "        if len(family) > 1 and genetic_haplotyping:\n            master_block = sorted(hom_in_any_sample)\n    else:\n        if len(family) > 1 and genetic_haplotyping:\n            master_block = sorted(set(homozygous_positions).intersection(accessible_positions_set))", "    if len(family) > 1 and genetic_haplotyping:\n        master_block = sorted(set(homozygous_positions).intersection(accessible_positions_set))", "C03.R4"),
+    ("b-master-block-else-elif", PH, "    else:\n        if len(family) > 1 and genetic_haplotyping:\n            master_block = sorted(set(homozygous_positions).intersection(accessible_positions_set))", "    elif len(family) > 1 and genetic_haplotyping:\n        master_block = sorted(set(homozygous_positions).intersection(accessible_positions_set))", "silent"),
+]
+VARIANTS["C05"] += [
+    ("gt-sorted-only-if-phased", VCF, '            if call["GT"] is not None and all(allele is not None for allele in call["GT"]):\n                call["GT"] = sorted(call["GT"])', '            if call.phased and call["GT"] is not None and all(allele is not None for allele in call["GT"]):\n                call["GT"] = sorted(call["GT"])', "C05.R5"),
+]
+VARIANTS["C06"] += [
+    ("inner-skip-loop-removed", "whatshap/_variants.pyx", "        cigar_op, length = py_cigar_op, py_length  # much faster when using typed cython variables\n\n        # Skip variants that come before this region\n        while j < n:\n            var_id = var_progress[j].variant_id\n            var_pos = variants[var_id].position\n            if var_pos >= ref_pos:\n                break\n            j += 1\n", "        cigar_op, length = py_cigar_op, py_length  # much faster when using typed cython variables\n", "C06.R9"),
+    ("b-inner-skip-loop-compact", "whatshap/_variants.pyx", "        cigar_op, length = py_cigar_op, py_length  # much faster when using typed cython variables\n\n        # Skip variants that come before this region\n        while j < n:\n            var_id = var_progress[j].variant_id\n            var_pos = variants[var_id].position\n            if var_pos >= ref_pos:\n                break\n            j += 1\n", "        cigar_op, length = py_cigar_op, py_length  # much faster when using typed cython variables\n\n        while j < n and variants[var_progress[j].variant_id].position < ref_pos:\n            j += 1\n", "silent"),
+]
+VARIANTS["C09"] += [
+    ("pseudo-reads-of-the-bam-sample", "whatshap/cli/__init__.py", "                        sample, variants, source_id, sample_id\n", "                        bam_sample, variants, source_id, sample_id\n", "C09.R4"),
+    ("b-sample-id-inline", "whatshap/cli/__init__.py", "                        sample, variants, source_id, sample_id\n", "                        sample, variants, source_id, self._numeric_sample_ids[sample]\n", "silent"),
+]
+VARIANTS["C10"] += [
+    ("chromosomes-reversed", "whatshap/cli/haplotag.py", "        for chrom, regions in user_regions.items():", "        for chrom, regions in reversed(list(user_regions.items())):", "C10.R1"),
+    ("references-sorted-in-normalize", "whatshap/cli/haplotag.py", "        for reference in bam_references:\n            regions[reference].append((0, None))", "        for reference in sorted(bam_references):\n            regions[reference].append((0, None))", "C10.R1"),
+    ("b-chromosomes-list-copy", "whatshap/cli/haplotag.py", "        for chrom, regions in user_regions.items():", "        for chrom, regions in list(user_regions.items()):", "silent"),
+]
+VARIANTS["C11"] += [
+    ("flips-by-xor", "src/polyphase/switchflipcalculator.cpp", "        diffCount += phase0[permutation.get(i)] != phase1[i];", "        diffCount += phase0[permutation.get(i)] ^ phase1[i];", "C11.R6"),
+    ("b-flips-by-if", "src/polyphase/switchflipcalculator.cpp", "        diffCount += phase0[permutation.get(i)] != phase1[i];", "        if (phase0[permutation.get(i)] != phase1[i]) {\n            diffCount++;\n        }", "silent"),
+    ("genotype-match-by-set", "whatshap/cli/compare.py", "        if Genotype([int(hap[i]) for hap in phasing0])\n        == Genotype([int(hap[i]) for hap in phasing1])", "        if set(int(hap[i]) for hap in phasing0)\n        == set(int(hap[i]) for hap in phasing1)", "C11.R6"),
+    ("b-genotype-match-by-sorted", "whatshap/cli/compare.py", "        if Genotype([int(hap[i]) for hap in phasing0])\n        == Genotype([int(hap[i]) for hap in phasing1])", "        if sorted(int(hap[i]) for hap in phasing0)\n        == sorted(int(hap[i]) for hap in phasing1)", "silent"),
+]
+VARIANTS["C12"] += [
+    ("multi-snv-any-alt", VCF, "            and all(len(alt) == 1 for alt in self.alternative_alleles)", "            and any(len(alt) == 1 for alt in self.alternative_alleles)", "C12.R6"),
+    ("b-snv-reordered", VCF, "        return (self.reference_allele != self.alternative_allele) and (\n            len(self.reference_allele) == len(self.alternative_allele) == 1\n        )", "        return (\n            len(self.reference_allele) == 1\n            and len(self.alternative_allele) == 1\n            and self.reference_allele != self.alternative_allele\n        )", "silent"),
+]
+VARIANTS["C14"] += [
+    ("header-test-inverted", "whatshap/cli/split.py", '    if not haplolist.readline().startswith("#"):\n        haplolist.seek(0)', '    if haplolist.readline().startswith("#"):\n        haplolist.seek(0)', "C14.R5"),
+    ("b-first-line-in-a-local", "whatshap/cli/split.py", '    if not haplolist.readline().startswith("#"):\n        haplolist.seek(0)', '    first = haplolist.readline()\n    if not first.startswith("#"):\n        haplolist.seek(0)', "silent"),
+    ("b-selected-reads-ior", "whatshap/cli/split.py", "        selected_reads = selected_reads.union(set(block_to_readnames[(chromosome, block_name)]))", "        selected_reads |= set(block_to_readnames[(chromosome, block_name)])", "silent"),
+]
+VARIANTS["C15"] += [
+    ("shadow-coordinate-own-component", "whatshap/cli/polyphase.py", "            components[accessible_pos[pos] + 1] = accessible_pos[cuts[i]]", "            components[accessible_pos[pos] + 1] = accessible_pos[pos]", "C15.R3"),
+]
+VARIANTS["C16"] += [
+    ("b-samples-list-copy-before-families", PH, "        families, family_trios = setup_families(samples, ped, max_coverage)", "        samples = list(samples)\n        families, family_trios = setup_families(samples, ped, max_coverage)", "silent"),
+    ("samples-as-set-before-families", PH, "        families, family_trios = setup_families(samples, ped, max_coverage)", "        samples = set(samples)\n        families, family_trios = setup_families(samples, ped, max_coverage)", "C16.R1"),
+]
+VARIANTS["C17"] += [
+    ("table-subset-before-phases", "whatshap/cli/haplotagphase.py", "            sample_to_super_reads, sample_to_components = (dict(), dict())", "            variant_table.subset_rows_by_position([v.position for v in variant_table.variants if not v.is_snv()])\n            sample_to_super_reads, sample_to_components = (dict(), dict())", "C17.R3"),
+    ("b-table-only-read", "whatshap/cli/haplotagphase.py", "            sample_to_super_reads, sample_to_components = (dict(), dict())", "            logger.debug(\"%d variants\", len(variant_table.variants))\n            sample_to_super_reads, sample_to_components = (dict(), dict())", "silent"),
+]
+VARIANTS["C18"] += [
+    ("sift-down-only-with-right-child", PQX, "\t\telse:\n\t\t\tself._sift_down(position)\n\n\t\tdel c_old_score", "\t\telif _right_child(position) < self.heap.size():\n\t\t\tself._sift_down(position)\n\n\t\tdel c_old_score", "C18.R3"),
+    ("b-sift-down-explicit-elif", PQX, "\t\telse:\n\t\t\tself._sift_down(position)\n\n\t\tdel c_old_score", "\t\telif not _vector_score_lower(c_old_score, c_new_score):\n\t\t\tself._sift_down(position)\n\n\t\tdel c_old_score", "silent"),
+]
